@@ -42,8 +42,10 @@ EXEMPT = [
     ('Standardize.standardize_charges', None, {'FLUSH', 'STEREO'}, {'CHARGE'}, 'atoms[atom_1]._charge',
      'charge removed from atom_1 before the morgan comparison is restored (= 1) when the pair is not recorded in '
      '`changed`: net no-op on that path'),
-    ('Resonance.fix_resonance', None, {'FLUSH', 'HYDRO', 'STEREO'}, {'CHARGE'}, 'atoms[m]._charge',
-     'tentative `-= 1` is rolled back by `+= 1` on the except ValenceError path; on success the witness set hs is updated'),
+    ('Resonance.fix_resonance', None, {'FLUSH', 'HYDRO', 'STEREO'}, {'CHARGE'}, None,
+     'ROLLBACK:chython.algorithms.standardize.resonance:Resonance.fix_resonance|every tentative charge change is net zero on each path that leaves the '
+     'iteration without recording atoms in the witness set hs (decided by the tentative-rollback rule on every run); on success hs is updated and the '
+     'witness-guarded recalculation + flush run'),
     ('Kekule.kekule', None, {'STEREO'}, None, None, 'documented: kekule keeps stereo as is (bond order localisation inside aromatic rings)'),
     ('Kekule.__fix_rings', None, {'STEREO'}, None, None, 'ring repair runs inside kekule/enumerate_kekule which keep stereo as is'),
     ('Kekule.__fix_rings', None, {'HYDRO'}, None, None,
@@ -98,6 +100,16 @@ def pops_key(repo, fq, key):
     return False
 
 
+_RB = {}
+
+
+def _rollback_cached(repo, fq, fn):
+    k = (id(repo), fq)
+    if k not in _RB:
+        _RB[k] = fn(repo, fq)
+    return _RB[k]
+
+
 def exempt(entry_q, o, repo=None, keep_flags=None):
     dim, cat, owner, origin, tag = o
     of = origin[0].split(':')[1]
@@ -114,6 +126,11 @@ def exempt(entry_q, o, repo=None, keep_flags=None):
             continue
         if sub is not None and sub not in origin[2]:
             continue
+        if reason.startswith('ROLLBACK:'):
+            fq_, _, reason = reason[9:].partition('|')
+            from .r_rings import rollback_holds
+            if repo is None or not _rollback_cached(repo, fq_, rollback_holds):
+                continue  # the exemption holds only while the rollback discipline is intact
         if reason.startswith('POP:'):
             key, _, reason = reason[4:].partition('|')
             if repo is None or not pops_key(repo, origin[0], key):
